@@ -473,6 +473,9 @@ func opGen() *rapid.Generator[op] {
 		o.Size = rapid.IntRange(0, 300).Draw(t, "size")
 		o.Ver = rapid.IntRange(-1, 4).Draw(t, "ver")
 		o.Src = rapid.IntRange(0, 2).Draw(t, "src")
+		if o.Kind == "delver" {
+			o.Ver = rapid.SampledFrom([]int{0, 0, 0, 1, 1, 2, 3, -1}).Draw(t, "delver_ver")
+		}
 		if o.Kind == "list" {
 			o.Max = rapid.SampledFrom([]int{1, 2, 3, 1000}).Draw(t, "max")
 			o.Pfx = rapid.SampledFrom([]string{"", "", "a", "dir/"}).Draw(t, "prefix")
